@@ -3,8 +3,8 @@
 1. MC: Launch.tla (parent + child of pkg/forkexec as transcribed) over all 512 site-flag
    combinations x namespace/environment rows: InvPost (C04 at the first instruction), no kernel
    refusal, termination (except the known stop-before-sync hang).
-2. Gen: TLC decodes the orchestrator's (site,row) index pairs (full factorial of the nine site
-   flags x covering rows + seeded random pairs) into option records.
+2. Gen: TLC decodes the orchestrator's (site,row) index pairs (thorough: full factorial of the nine
+   site flags x 3 covering rows + random pairs; quick: seed-sampled subset) into option records.
 3. Every case is started for real (forkexec.Runner, static probe as target); non-ptrace cases
    additionally under strace -f.
 4. Judge: TLC judges every observation line against Post / Final (Launch_Judge).
@@ -30,12 +30,13 @@ CHECK_DEADLOCK FALSE
 
 
 def run(ctx):
+    from vlib import Inconclusive
     rng = ctx.rng
     quick = ctx.quick()
     # ---- 1. design level
     inter = [0, 1, 2, 4, 128, 256]          # user pid mnt cgfd amb: the row flags the step machine reads
     if quick:
-        rows = {0, rng.choice([1, 3, 5, 257, 2, 6, 130, 384, 511])}
+        rows = {rng.choice([0, 1, 3, 5, 257, 2, 6, 130, 384, 511])}
     else:
         rows = {a | b | c | d | e for a in (0, 1) for b in (0, 2) for c in (0, 4) for d in (0, 256) for e in (0, 128 | 8 | 16 | 32 | 64)}
         rows |= {511, 8, 16, 32, 64}
@@ -52,14 +53,17 @@ def run(ctx):
     cov = lc.covering_rows(rng)
     pairs = set()
     nrow = ctx.pick(1, 3)
-    for s in range(512):
+    sites = list(range(512))
+    if quick:
+        sites = rng.sample(sites, 176)       # seed-sampled subset of the factorial; thorough takes all 512
+    for s in sites:
         dropping = (s & 1) or (s & 2)
         chosen = rng.sample(cov, min(nrow, len(cov))) if not quick else [rng.choice(cov)]
         for rw in chosen:
             if dropping and rng.random() < 0.75:
                 rw |= 256                    # ambient launcher: makes a lost capset visible
             pairs.add(s * 512 + rw)
-    for _ in range(ctx.pick(48, 400)):
+    for _ in range(ctx.pick(24, 400)):
         pairs.add(rng.randrange(512) * 512 + rng.randrange(512))
     g = ctx.tlc("Launch_Gen", cfg="CONSTANTS\n  C04Pairs = {%s}\n  C07Bases = {}\nINIT Init\nNEXT Next\n" % ",".join(map(str, sorted(pairs))),
                 timeout=600, count=False)
@@ -75,7 +79,7 @@ def run(ctx):
     st_pool = [c for c in cases if not c["nostrace"]]
     rng.shuffle(st_pool)
     st_cases = []
-    for i, c in enumerate(st_pool[:ctx.pick(96, 600)]):
+    for i, c in enumerate(st_pool[:ctx.pick(40, 400)]):
         c2 = dict(c)
         c2["id"] = 100000 + i
         st_cases.append(c2)
@@ -91,11 +95,25 @@ def run(ctx):
     ctx.cov["mc_states"] = r.distinct
     ctx.log("MC: %d configurations, %d distinct states, %.0fs" % (512 * len(rows), r.distinct, r.wall))
 
-    # ---- 4. TLC judges the observations
-    j = ctx.tlc("Launch_Judge", files={"c04obs.ndjson": allobs}, timeout=900, count=False)
+    # ---- 4/5. TLC judges the observations and validates the strace step traces (two runs, concurrently)
+    traces = []
+    parsed = {}
+    for lf in logs:
+        parsed.update(lc.parse_strace(lf))
+    byid = {o["id"]: o for o in sobs}
+    for cid in sorted(parsed):
+        o = byid.get(cid)
+        if o is None or not o["started"]:
+            continue
+        p = parsed[cid]
+        traces.append({"id": cid, "opt": o["opt"], "req": {"uid": o["req"]["uid"], "gid": o["req"]["gid"]},
+                       "child": p["child"], "parent": p["parent"]})
+    if len(traces) < len(sobs) * 0.9:
+        raise Inconclusive("strace logs yielded %d traces for %d launches" % (len(traces), len(sobs)))
+    j, t = lc.par(lambda: ctx.tlc("Launch_Judge", files={"c04obs.ndjson": allobs}, timeout=900, count=False),
+                  lambda: ctx.tlc("Launch_Trace", files={"ltraces.ndjson": traces}, timeout=1200, dfs=True) if traces else None)
     ctx.tlc_ok("Launch_Judge", j)
     bad = ctx.read_ndjson(os.path.join(j.dir, "c04bad.ndjson"))
-    from vlib import Inconclusive
     drift = 0
     truth = 0
     for b in bad:
@@ -122,23 +140,7 @@ def run(ctx):
     if truth:
         raise Inconclusive("%d kernel-truth mismatches (probe self-report vs /proc/<pid> seen from outside)" % truth)
 
-    # ---- 5. TLC validates the strace step traces
-    traces = []
-    parsed = {}
-    for lf in logs:
-        parsed.update(lc.parse_strace(lf))
-    byid = {o["id"]: o for o in sobs}
-    for cid in sorted(parsed):
-        o = byid.get(cid)
-        if o is None or not o["started"]:
-            continue
-        p = parsed[cid]
-        traces.append({"id": cid, "opt": o["opt"], "req": {"uid": o["req"]["uid"], "gid": o["req"]["gid"]},
-                       "child": p["child"], "parent": p["parent"]})
-    if len(traces) < len(sobs) * 0.9:
-        raise Inconclusive("strace logs yielded %d traces for %d launches" % (len(traces), len(sobs)))
     if traces:
-        t = ctx.tlc("Launch_Trace", files={"ltraces.ndjson": traces}, timeout=1200, dfs=True)
         if t.invariant:
             ctx.note("DRIFT: a strace step trace leads the model to a start state that violates Post (%s)" % t.invariant)
             drift += 1
